@@ -18,6 +18,7 @@
    (TTPairs (ttph TT) (ttphas Bool) (ttprest TTL) (ttptail String)))   ; LBRACK term (',' termlist)? '|' VARIABLE RBRACK
   ((ttnil) (ttcons (tthd TT) (tttl TTL)))))
 
+(declare-fun ttsrc (TT) String)              ; the source text of a term node (getText()): no function of the AST is determined by it
 (declare-fun isvartok (String) Bool)      ; the text matches the VARIABLE token rule   (concretely: spec/strings.smt2 VARIABLE)
 (declare-fun isstrtok (String) Bool)      ; the text matches the STRING token rule (quoted, length >= 2)
 (declare-fun mangle (String) String)      ; renaming of reserved variable names        (concretely: spec/strings.smt2 mangle)
